@@ -246,6 +246,42 @@ func sliceLenLB(b *ssa.BasicBlock, base ssa.Value) (int64, string) {
 			}
 		}
 	}
+	// a parameter of a function literal (or of an unexported package-level function): it is only ever called with what its callers hand it — every call
+	// site the call graph knows for it (direct calls in the enclosing function, or calls of the function value where
+	// it was passed as a callback) must hand over a value with the bound
+	if prm, ok := core.StripConv(base).(*ssa.Parameter); ok && (prm.Parent().Parent() != nil || (prm.Parent().Object() != nil && !prm.Parent().Object().Exported() && prm.Parent().Signature.Recv() == nil)) && lenLBProgram != nil && closureLBDepth < 2 {
+		pi := -1
+		for i, q := range prm.Parent().Params {
+			if q == prm {
+				pi = i
+			}
+		}
+		if node := lenLBProgram.CG().Nodes[prm.Parent()]; node != nil && pi >= 0 && len(node.In) > 0 {
+			closureLBDepth++
+			best := int64(-1)
+			for _, e := range node.In {
+				if e.Site == nil || e.Site.Common().IsInvoke() || pi >= len(e.Site.Common().Args) {
+					best = 0
+					break
+				}
+				n, _ := sliceLenLB(e.Site.Block(), e.Site.Common().Args[pi])
+				if best < 0 || n < best {
+					best = n
+				}
+			}
+			closureLBDepth--
+			if best > 0 {
+				// what the literal tests itself may prove more
+				closureLBDepth += 10
+				n, why := sliceLenLB(b, base)
+				closureLBDepth -= 10
+				if n > best {
+					return n, why
+				}
+				return best, fmt.Sprintf("every call of the function literal hands it at least %d element(s)", best)
+			}
+		}
+	}
 	cb := canon(base)
 	isLen := func(v ssa.Value) bool {
 		c, ok := v.(*ssa.Call)
@@ -334,6 +370,8 @@ func sliceLenLB(b *ssa.BasicBlock, base ssa.Value) (int64, string) {
 	case *ssa.MakeSlice:
 		if k, ok := core.ConstInt(x.Len); ok && k > lb {
 			lb, why = k, "make with constant length"
+		} else if k := intLB(x.Len, map[ssa.Value]bool{}, 0); k > lb && k < 1<<40 {
+			lb, why = k, fmt.Sprintf("made with a length of at least %d", k)
 		}
 	}
 	if tokText != nil {
@@ -410,6 +448,7 @@ func installRegexpResolver(p *core.Program) {
 // callee's returns, of what is established for the returned value there — a length test on the path to the return,
 // a producer of known length, or, when a parameter is returned as is, the bound of the argument at this call.
 var calleeLBDepth int
+var closureLBDepth int
 
 func calleeLenLB(b *ssa.BasicBlock, base ssa.Value, depth int) (int64, string) {
 	if calleeLBDepth >= 2 {
@@ -427,28 +466,49 @@ func calleeLenLB(b *ssa.BasicBlock, base ssa.Value, depth int) (int64, string) {
 	if !ok {
 		return 0, ""
 	}
-	g := call.Call.StaticCallee()
-	if g == nil || g.Blocks == nil || !core.InModule(core.FuncPkgPath(g)) {
-		return 0, ""
-	}
-	best := int64(-1)
-	calleeArgEnv = append(calleeArgEnv, calleeArgBinding{g.Params, call.Call.Args, b})
-	defer func() { calleeArgEnv = calleeArgEnv[:len(calleeArgEnv)-1] }()
-	for _, gb := range g.Blocks {
-		ret, ok := gb.Instrs[len(gb.Instrs)-1].(*ssa.Return)
-		if !ok {
-			continue
-		}
-		if idx >= len(ret.Results) {
+	var callees []*ssa.Function
+	var args [][]ssa.Value
+	if call.Call.IsInvoke() {
+		// a method of a module interface: every implementation in the module must yield the bound (the receiver is
+		// the first parameter of the implementation, the interface value stands for it)
+		if lenLBProgram == nil {
 			return 0, ""
 		}
-		rv := core.StripConv(ret.Results[idx])
-		var n int64
-		if _, ok := rv.(*ssa.Parameter); ok {
-			n, _ = sliceLenLBDepth(gb, rv, depth+1) // resolved through calleeArgEnv
-		} else {
-			n, _ = sliceLenLBDepth(gb, rv, depth+1)
+		iface, _ := call.Call.Value.Type().Underlying().(*types.Interface)
+		if iface == nil {
+			return 0, ""
 		}
+		for _, n := range lenLBProgram.Implementers(iface) {
+			var m *ssa.Function
+			for _, t := range []types.Type{n, types.NewPointer(n)} {
+				if sel := lenLBProgram.SSA.MethodSets.MethodSet(t).Lookup(call.Call.Method.Pkg(), call.Call.Method.Name()); sel != nil {
+					m = lenLBProgram.SSA.MethodValue(sel)
+					break
+				}
+			}
+			if m == nil || m.Blocks == nil {
+				return 0, ""
+			}
+			if lenLBProgram.IsTestFile(m.Pos()) {
+				continue
+			}
+			// promoted through embedding: the wrapper forwards to the declared method
+			callees = append(callees, m)
+			args = append(args, append([]ssa.Value{call.Call.Value}, call.Call.Args...))
+		}
+		if len(callees) == 0 {
+			return 0, ""
+		}
+	} else {
+		g := call.Call.StaticCallee()
+		if g == nil || g.Blocks == nil || !core.InModule(core.FuncPkgPath(g)) {
+			return 0, ""
+		}
+		callees, args = []*ssa.Function{g}, [][]ssa.Value{call.Call.Args}
+	}
+	best := int64(-1)
+	for ci, g := range callees {
+		n := calleeReturnsLB(b, g, args[ci], idx, depth)
 		if best < 0 || n < best {
 			best = n
 		}
@@ -456,7 +516,32 @@ func calleeLenLB(b *ssa.BasicBlock, base ssa.Value, depth int) (int64, string) {
 	if best <= 0 {
 		return 0, ""
 	}
-	return best, fmt.Sprintf("every return of %s yields at least %d element(s)", g.Name(), best)
+	return best, fmt.Sprintf("every return of %s yields at least %d element(s)", callees[0].Name(), best)
+}
+
+// calleeReturnsLB: the minimum, over the returns of g, of the length bound of result idx, with g's parameters bound to args.
+func calleeReturnsLB(b *ssa.BasicBlock, g *ssa.Function, args []ssa.Value, idx int, depth int) int64 {
+	best := int64(-1)
+	calleeArgEnv = append(calleeArgEnv, calleeArgBinding{g.Params, args, b})
+	defer func() { calleeArgEnv = calleeArgEnv[:len(calleeArgEnv)-1] }()
+	for _, gb := range g.Blocks {
+		ret, ok := gb.Instrs[len(gb.Instrs)-1].(*ssa.Return)
+		if !ok {
+			continue
+		}
+		if idx >= len(ret.Results) {
+			return 0
+		}
+		rv := core.StripConv(ret.Results[idx])
+		n, _ := sliceLenLBDepth(gb, rv, depth+1) // a returned parameter is resolved through calleeArgEnv
+		if best < 0 || n < best {
+			best = n
+		}
+	}
+	if best < 0 {
+		return 0
+	}
+	return best
 }
 
 func sliceLenLBDepth(b *ssa.BasicBlock, base ssa.Value, depth int) (int64, string) {
